@@ -275,7 +275,8 @@ def check_case(ctx, case):
             o2 = call(CE.MLL_magnitude_test, forecast(), observed(), full_calculation=True, seed=case["seed"])
             if not o1.ok or not o2.ok:
                 ctx.unexpected(o1 if not o1.ok else o2, "MLL_full_calculation" + (":more_observed_than_forecast_events" if n_obs > nu else ""))
-            else:
+            elif ctx.normalize("MLL_full", lambda: ([float(x) for x in o1.value.test_distribution], [float(x) for x in o2.value.test_distribution],
+                                                      float(o1.value.observed_statistic))) is not None:
                 t1 = [float(x) for x in o1.value.test_distribution]
                 if len(t1) != J or any(math.isnan(x) or math.isinf(x) for x in t1):
                     ctx.violation("MLL_full:distribution_size_or_finiteness", {"n": len(t1), "J": J})
